@@ -59,5 +59,6 @@ pub proof fn lemma_der_cases(sig: SigV, f: u8)
     requires valid_sig_scalars(sig.r, sig.s)
     ensures der_dec(der_enc(sig)) == Some(sig), der_dec(der_enc(sig).push(f)) is None, der_enc(sig).push(f).drop_last() == der_enc(sig)
 { axiom_der_roundtrip(sig); axiom_der_no_trailing(der_enc(sig), f); assert(der_enc(sig).push(f).drop_last() == der_enc(sig)); }
+//@prooffn SigHash::flag_values spec/sighash_table.rs @ src/transaction/sighash.rs
 } // verus!
 fn main() {}
